@@ -48,7 +48,8 @@ Record pool_inv (h : Z) (p : pool) : Prop := mkPI {
   pi_last : p_last p <= h;
   pi_started : 0 < p_locked p -> p_start p <= p_last p;
   pi_fresh : h < p_start p -> Forall (fun r => r_rem r = r_total r) (p_rules p);
-  pi_creator : actor (p_creator p)
+  pi_creator : actor (p_creator p);
+  pi_nodup : NoDup (keys (p_farmers p))
 }.
 
 Definition covered (p : pool) : Prop :=
